@@ -51,6 +51,9 @@ func Replay(verifDir, path string) (int, error) {
 		return 2, err
 	}
 	defer e.Cleanup()
+	if rf.Depth > 1 {
+		e.Depth = rf.Depth
+	}
 	if rf.World == "conc" {
 		return replayConcFile(e, rf, path)
 	}
